@@ -55,12 +55,15 @@ func vpH_C03_T_changed() {
 	s.kv.lat = s.to - 1 // request latency below the time-out; the response leg is immediate
 	s.kv.opLeft = 6
 	tc := int64(-1)
-	kind := vpChoose("change", 2)
+	kind := vpChoose("change", 3)
 	go func() {
 		vpDelay("change", 0, 2*tm.H+tm.H/2)
 		tc = vpNow()
 		if kind == 0 {
 			s.st.write("env:other", "update", vpRecMk("other", "tok-other", 0), false, s.st.lastSeq)
+		} else if kind == 2 {
+			// a later incarnation with the same instance id but its own token took the record
+			s.st.write("env:a2", "update", vpRecMk("a", "tok-later", 0), false, s.st.lastSeq)
 		} else {
 			s.st.write("env:other", "delete", nil, true, 0)
 		}
